@@ -18,6 +18,18 @@ def judge_factory(rec, cfg):
             pass      # a configuration generated outside the documented domain, rejected with the documented error
         else:
             v("C20", "crash:" + rec.crash[0], f"unhandled {rec.crash[0]} escaped env.step() at t={rec.crash[-1]}: {rec.crash[1][:120]}")
+    # C15: "an out-of-range index is rejected with an error rather than wrapped or ignored": once a user selector has answered an index
+    # outside [0, n) the process that asked must not route anything any more, and the run ends with the error
+    for ai, a in enumerate(rec.acts):
+        bad = [x for x in a["calls"] if x.startswith("sel ") and not (0 <= int(x.split()[1]) < 9) ]
+        if not bad: continue
+        k = a["calls"].index(bad[0])
+        after = [x for x in a["calls"][k + 1:] if x.split()[0] in ("put", "get", "rp", "rg", "can")]
+        later = [b for b in rec.acts[ai + 1:] if b["node"] == a["node"] and b.get("proc") == a.get("proc") and any(x.split()[0] in ("put", "get", "rp", "rg") for x in b["calls"])]
+        if rec.crash is None or after or later:
+            v("C15", "out-of-range", f"{kinds[a['node']]} {a['node']} at t={a['t']}: the user selector answered {bad[0].split()[1]}, which is outside the node's edge list, "
+                                     f"and the node went on ({(after or ['later activations'])[0]}) instead of rejecting the index with an error")
+        break
     # ---------------- item bookkeeping from the movement trace
     where = {}            # item -> ("edge", e) | ("node", n)
     edge_in = {i: 0 for i in range(len(rec.edges))}
